@@ -30,20 +30,30 @@ def simulate(run, tier, seed, label, num=None):
     tlc.write_cfg(cfg, spec="Spec", constants=consts, invariants=INVS, properties=PROPS)
     workers = 16
     per = num or (2 if quick else 60)
-    res = tlc.run_tlc("Session", cfg, workers=workers, simulate="file={dir}/tr,num=%d" % per, depth=7, seed=seed + 1, timeout=3000, tag="Session_" + label)
-    run.add_tlc(res, "Session/" + label)
-    if not res.ok:
-        run.violation({"kind": "spec", "invariant": res.violated, "what": "Session"}, {"trace": res.trace_text})
-    files = sorted(glob.glob(os.path.join(res.simdir, "tr_*")))
-    behs = []
-    for f in files:
-        try:
-            b = parse_behaviour_file(f)
-        except Exception:  # noqa: BLE001   a file still being written when TLC stopped
-            continue
-        if len(b) >= 2:
-            behs.append([s for _, s in b])
-    tlc.cleanup(res)
+    target = per * workers
+    behs, overflows, rounds = [], 0, 0
+    while len(behs) < 0.6 * target and rounds < 4:
+        # exact rationals grow along a session and TLC stops at a 32-bit overflow instead of wrapping: such a stop only ends that
+        # simulation run (the behaviours written before it are complete); further runs with other seeds fill up the sample
+        res = tlc.run_tlc("Session", cfg, workers=workers, simulate="file={dir}/tr,num=%d" % max(1, min(per, (target - len(behs) + workers - 1) // workers)),
+                          depth=7, seed=seed + 1 + 1000 * rounds, timeout=3000, tag="Session_" + label, tolerate_overflow=True)
+        rounds += 1
+        run.add_tlc(res, "Session/" + label)
+        if getattr(res, "overflow", False):
+            overflows += 1
+        elif not res.ok or res.violated:
+            run.violation({"kind": "spec", "invariant": res.violated, "what": "Session"}, {"trace": res.trace_text})
+        for f in sorted(glob.glob(os.path.join(res.simdir, "tr_*"))):
+            try:
+                b = parse_behaviour_file(f)
+            except Exception:  # noqa: BLE001   a file still being written when TLC stopped
+                continue
+            if len(b) >= 2:
+                behs.append([s for _, s in b])
+        tlc.cleanup(res)
+        if res.violated:
+            break
+    run.extra["session_simulation_runs"] = {"runs": rounds, "stopped_by_32bit_overflow": overflows}
     shutil.rmtree(work, ignore_errors=True)
     return behs
 
